@@ -298,6 +298,26 @@ func (c *Ctx) Done() {
 	}
 }
 
+// Guard starts a watchdog that ends the process (exit 3, "MEMGUARD" on stderr)
+// when the heap exceeds limit bytes: the case in progress is attributed by the
+// driver through the progress mark.
+func (c *Ctx) Guard(limit uint64) {
+	go func() {
+		var ms runtime.MemStats
+		for {
+			time.Sleep(100 * time.Millisecond)
+			runtime.ReadMemStats(&ms)
+			if ms.HeapInuse > limit {
+				fmt.Fprintf(os.Stderr, "fatal error: MEMGUARD heap in use %d MiB exceeds %d MiB\n", ms.HeapInuse>>20, limit>>20)
+				buf := make([]byte, 1<<16)
+				n := runtime.Stack(buf, true)
+				os.Stderr.Write(buf[:n])
+				os.Exit(3)
+			}
+		}
+	}()
+}
+
 // PanicSite extracts "pkg.func" of the innermost qiloop frame from a stack.
 func PanicSite(stack string) string {
 	lines := strings.Split(stack, "\n")
